@@ -1277,3 +1277,4 @@ MANIFEST = {
 }
 MANIFEST["note"] += " " + py2lean.manifest_note("pnorm")
 MANIFEST["note"] += " " + py2lean.manifest_note("plnorm")
+MANIFEST["note"] += ' A third known finding is replayed on every run (common.known_probe): the sign-crossing branch of _p_norm re-evaluates end values through the intercept form and rounds at |slope*x| (2.7e-3 of the value at x0 = 2^30+0.5 for a segment 1e-4 long; DESIGN 10.13).'
